@@ -856,7 +856,8 @@ func HashMapOfValueIndex(vm *Thread, hashMap *HashMapOfValue, key value.Value) (
 		// when we reach the start index
 		// all slots are checked
 		if index == startIndex {
-			return -1, value.Undefined
+			// there is no empty slot, a deleted slot (if any) can still be reused
+			return deletedIndex, value.Undefined
 		}
 	}
 }
